@@ -187,6 +187,10 @@ def rule_r1(ctx):
             if len(matching) != 1:
                 raise AnalysisError(f"C04-R1: {len(matching)} paths of get_unescaped_str match cell {cell} (quote {qm})")
             em, desc = _emission(matching[0])
+            if em == "other":
+                # not one of the spellings the cell analysis knows (raw, ascii()/repr(), backslash + quote,
+                # a fixed escape): nothing is concluded from a form that is not understood
+                raise AnalysisError(f"C04-R1: get_unescaped_str appends `{desc[:80]}` for cell {cell} - an emission the cell analysis cannot classify")
             ok, why = _safe(em, lo, hi, qm)
             if ok:
                 rr.ok(what, sample={"rule": "C04-R1", "cell": cell, "quote": qm, "emission": desc, "why_safe": why})
@@ -388,7 +392,9 @@ def rule_r3(ctx):
             rr.ok(what, sample={"rule": "C04-R3", "skeleton": norm[:90]})
     # leading '{' of the value is spaced
     rr.instances += 1
-    brace = [p for p in paths if any("=='{'" in k and v is True for k, v in p.assign.items())]
+    # (the decision about the field's OWN value: fields nested in its format spec, when they are
+    # rendered in line, take the same decision about their values)
+    brace = [p for p in paths if any(re.search(r"text\(FormattedValue\.value\).*=='\{'$", k) and v is True for k, v in p.assign.items())]
     if not brace or not all(render(p.result).startswith("{ ") for p in brace):
         rr.fail("C04-R3|FormattedValue|leading-brace", f"{fi.where()}: a value text starting with '{{' is not separated from the field's brace by a space (`{{{{` would be a literal brace)", what="leading-brace")
     else:
@@ -613,6 +619,28 @@ def _c02r5(ctx):
     return r(ctx)
 
 
+def _raw_item(pr):
+    """Does the path append the character itself (possibly seen through a decode)?  The classifier of
+    the str escaper reports that as `raw` only for its own parameter name."""
+    reps = []
+
+    def find(v):
+        if isinstance(v, Rep):
+            reps.append(v)
+        elif isinstance(v, Str):
+            for p in v.parts:
+                find(p)
+        elif isinstance(v, StrOp):
+            for a in v.args:
+                find(a)
+        elif isinstance(v, PList):
+            for i in v.items:
+                find(i)
+
+    find(pr.result)
+    return len(reps) == 1 and len(reps[0].items) == 1 and isinstance(reps[0].items[0], Unknown)
+
+
 def _safe_in_bytes(emission, lo, hi, qm):
     """Is the emission a correct, single-line spelling of every byte value of the cell inside a bytes
     literal delimited by qm?  (Only ASCII characters may appear in a bytes literal.)"""
@@ -658,9 +686,9 @@ def rule_r8(ctx):
     okp = bpaths
     efi = fi
     if not any(char_keys(p) for p in okp):
-        rr.fail("C04-R8|Constant|bytes|no-escaper", f"{fi.where()}: the bytes case does not decide per byte value how it is written", where=fi.where(), what="bytes|escaper")
-        rr.floor = 1
-        return rr
+        # how each byte value is written could not be read off the paths (the escaping goes through a
+        # table, a callback, ...): no verdict about the escaper
+        raise AnalysisError(f"C04-R8: {fi.where()}: the bytes case does not decide per byte value how it is written in a form the cell analysis can follow")
     cells = [(lo, min(hi, 0xFF)) for lo, hi in _cells(okp) if lo <= 0xFF]
     for qm in ("'", '"'):
         for lo, hi in cells:
@@ -677,6 +705,10 @@ def rule_r8(ctx):
             if len(matching) != 1:
                 raise AnalysisError(f"C04-R8: {len(matching)} paths of {efi.name} match byte cell {cell} (quote {qm})")
             em, desc = _emission(matching[0])
+            if em == "other" and not _raw_item(matching[0]):
+                raise AnalysisError(f"C04-R8: the bytes case appends `{desc[:80]}` for byte cell {cell} - an emission the cell analysis cannot classify")
+            if em == "other" and _raw_item(matching[0]):
+                em, desc = "raw", "the character itself"
             ok, why = _safe_in_bytes(em, lo, hi, qm)
             if ok:
                 rr.ok(what, sample={"rule": "C04-R8", "cell": cell, "quote": qm, "emission": desc, "why_safe": why})
